@@ -56,7 +56,7 @@ ASSUMPTIONS = [
 ]
 MUST_FIRE = {
     "quick": ["close_phase=backoff_sleep", "close_phase=pending_attempt", "close_phase=connected", "soak_runs"],
-    "thorough": ["close_phase=backoff_sleep", "close_phase=pending_attempt", "close_phase=connected", "close_same_iter=attempt_end", "close_same_iter=loss", "soak_runs"],
+    "thorough": ["close_phase=backoff_sleep", "close_phase=pending_attempt", "close_phase=connected", "close_same_iter=attempt_end", "close_same_iter=loss", "soak_runs", "loss_injected_at_iteration", "close_called_again"],
 }
 
 GRID = [0, 0, 0.5, 1, 2, 4, 5, 8]
@@ -65,10 +65,11 @@ LIFE = [None, None, 0, 0.5, 1, 2, 4, 5, 8, 60]
 
 def _spec(rng):
     r = rng.random()
+    y = rng.choice([0, 0, 0, 1, 2])
     if r < 0.5:
-        return {"o": "ok", "d": rng.choice(GRID), "life": rng.choice(LIFE)}
+        return {"o": "ok", "d": rng.choice(GRID), "life": rng.choice(LIFE), "y": y}
     if r < 0.93:
-        return {"o": "fail", "d": rng.choice(GRID)}
+        return {"o": "fail", "d": rng.choice(GRID), "y": y}
     return {"o": "hang", "d": 0}
 
 
@@ -142,7 +143,7 @@ def gen(rng, tier, index):
     points = []
     if tier == "thorough":
         for k in range(1, max(2, n_iter)):
-            for p in (0, 1, -1):
+            for p in (0, 1, 2, -1):
                 points.append((k, p))
         if len(points) > 900:
             points = rng.sample(points, 900)
@@ -152,6 +153,11 @@ def gen(rng, tier, index):
     for k, p in points:
         sc = copy.deepcopy(base)
         sc["close"] = {"iter": k, "pos": p}
+        r = rng.random()
+        if r < 0.15:  # the line drops in the same or a neighbouring iteration as close()
+            sc["extra"] = [{"what": "lose", "iter": max(1, k + rng.choice([-2, -1, 0, 0, 0, 1])), "pos": rng.choice([0, -1])}]
+        elif r < 0.25:
+            sc["extra"] = [{"what": "close_again", "iter": k + rng.choice([0, 1, 2, 5]), "pos": rng.choice([0, -1])}]
         if rng.random() < 0.2:
             sc["restart"] = {"gap": rng.choice([0, 0.5, 3, 20]), "run": rng.choice([5, 30])}
         yield sc
@@ -166,6 +172,8 @@ def execute(sc):
     faults = {
         "connect_fail": kinds.count("attempt_fail"),
         "loss": kinds.count("loss"),
+        "loss_injected_at_iteration": kinds.count("loss_injected"),
+        "close_called_again": kinds.count("close_called_again"),
         "close_at": kinds.count("close_called"),
         "restart_after_close": kinds.count("restart"),
         "wall_clock_jump": kinds.count("wall_clock_jump"),
@@ -207,7 +215,7 @@ def execute(sc):
 
 
 def summarise(sc, rig=None):
-    out = {k: sc.get(k) for k in ("kind", "script", "tail", "cfg", "stream", "close", "jump", "restart", "horizon")}
+    out = {k: sc.get(k) for k in ("kind", "script", "tail", "cfg", "stream", "close", "extra", "jump", "restart", "horizon")}
     if rig is not None:
         out["observed"] = {
             "attempts": rig.attempts,
@@ -231,6 +239,8 @@ def candidates(sc):
         c.update(kw)
         return c
 
+    if sc.get("extra"):
+        yield with_(extra=None)
     for key in ("restart", "jump", "stream"):
         if sc.get(key) is not None:
             yield with_(**{key: None})
@@ -245,6 +255,10 @@ def candidates(sc):
         if v is not None:
             yield with_(cfg=dict(cfg, **{k: None}))
     for i, spec in enumerate(script):
+        if spec.get("y"):
+            s2 = copy.deepcopy(script)
+            s2[i]["y"] = 0
+            yield with_(script=s2)
         if spec.get("d"):
             for d in (0, 1):
                 if d < spec["d"]:
